@@ -810,7 +810,11 @@ def apply2(name, a, b):
 
 
 def clip(x, lo, hi):
-    return apply2('min', apply2('max', x, lo), hi)
+    if lo is not None:
+        x = apply2('max', x, lo)
+    if hi is not None:
+        x = apply2('min', x, hi)
+    return x
 
 
 def where(c, a, b):
